@@ -846,6 +846,24 @@ LOGGING_TWIN = [
 ]
 MUTANTS += LOGGING_TWIN
 
+LINEAR_MUTANTS = [
+    dict(id="c03-exceeded-by-wrong", props=["C03"], rule="R7", names="exceeded_by",
+         edits=[(CONSTR, """                raise SizeConstraintExceededError(
+                    self,
+                    violator_path=path,
+                    exceeded_by=self.size_already + size - self.size_max,""", """                raise SizeConstraintExceededError(
+                    self,
+                    violator_path=path,
+                    exceeded_by=size - self.size_max,""")]),
+    dict(id="c03-anticipated-value", props=["C03"], rule="R7", names="violator_value",
+         edits=[(CONSTR, "                    violator_value=size,\n", "                    violator_value=self.size_already + size,\n")]),
+    dict(id="c03-skip-off-by-one", props=["C03", "C08", "C13"], rule={"C03": "R7", "C08": "Y4", "C13": "A3"},
+         edits=[(CONSTR, "                yield from consume_bytes(self.size_max - self.size_already)\n                raise SizeConstraintExceededError(", "                yield from consume_bytes(self.size_max - self.size_already - 1)\n                raise SizeConstraintExceededError(")]),
+    dict(id="c03-benign-reassociate", props=["C03", "C08", "C13"], benign=True,
+         edits=[(CONSTR, "                    exceeded_by=self.size_already + size - self.size_max,\n                )\n            else:", "                    exceeded_by=size - (self.size_max - self.size_already),\n                )\n            else:")]),
+]
+MUTANTS += LINEAR_MUTANTS
+
 # seeded regressions written by independent sub-agents (seeded/<id>/): kept as regression tests of the checkers
 import glob as _glob
 import json as _json
